@@ -172,8 +172,8 @@ def run(ctx):
     # derived: theta_alpha is a probability vector (C10 R10b restricted to the combiner)
     n = 0
     for fn, p, i, e, val in c10.theta_stores(ctx, comb):
-        if fn.name == '__init__':
-            continue
+        if fn.name == '__init__' or e.data[2] == ('attr', SELF, 'theta_alpha'):
+            continue            # initialisation / save-restore of the coefficients
         n += 1
         from ..sellib import is_prob, onehot_source
         ok = is_prob(val) is not None or onehot_source(repo, val) is not None
